@@ -844,6 +844,15 @@ class Interp:
             raise Unsupported('nested comprehension')
         g = n.generators[0]
         src = self.eval(g.iter, fr)
+        if type(src).__name__ == 'OpaqueVal':
+            # comprehension over a value we do not model: kept structurally ("swap" = {v: k for k, v in src})
+            shape = ('other',)
+            if (kind == 'dict' and isinstance(g.target, ast.Tuple) and len(g.target.elts) == 2 and not g.ifs
+                    and all(isinstance(e, ast.Name) for e in g.target.elts) and isinstance(n.key, ast.Name)
+                    and isinstance(n.value, ast.Name) and n.key.id == g.target.elts[1].id and n.value.id == g.target.elts[0].id):
+                shape = ('swap',)
+            from .libops import OpaqueVal
+            return OpaqueVal('comp', (kind, src, shape))
         if isinstance(src, (SymList, LazyIter, SymMap)) or (isinstance(src, PList) and not src.is_concrete()):
             return self.lib.symbolic_comp(self, n, g, src, fr, kind)
         items = self.iterate(src, n)
